@@ -82,6 +82,18 @@ def replay(case):
                             out.append(('%s:%s:scaled:%s' % (tag, cfg['guess'], kind), 'right-hand side scaled by 2^%d: the result is not the '
                                         'scaled exact solution (relative error %.3e, ranks %r)' % (e2, errs / scale, getattr(rs, 'ranks', None))))
                             break
+                    # second use of one operator object: solve, then the caller re-scales the operator in place (first core x 3:
+                    # the operator 3A) and solves 3A x = 3b with the same object - the solution is the same x*
+                    A2 = A.copy()
+                    f_ = sle.als if name == 'als' else sle.mals
+                    kw3 = {} if name == 'als' else dict(threshold=0)
+                    f_(A2, x0, b, repeats=1, solver=micro, **kw3)
+                    A2.cores[0] = 3.0 * A2.cores[0]
+                    r2 = f_(A2, x0, 3.0 * b, repeats=1, solver=micro, **kw3)
+                    err2 = float(np.max(np.abs(dense_vec(r2) - xsd))) if not metadata_problem(r2) else np.inf
+                    if not err2 <= 1e-8 * scale:
+                        out.append(('%s:%s:second-use:%s' % (tag, cfg['guess'], kind), 'operator object re-scaled in place (first core x 3) between '
+                                    'two calls, right-hand side 3b: the result is not x* (max abs error %.3e, dims %r)' % (err2, cfg['dims'])))
                 else:
                     E = []
                     for rep in range(0, 4):
